@@ -88,6 +88,16 @@ check("C14", "exploration",
       "deterministic simulation with fault injection: seeded schedule/fault/crash search, invariants per step, per committed delete and per finished reconcile",
       "§7 C14")
 
+check("C20", "exploration",
+      "Seeded deterministic simulation of `crossplane core init`: every real initializer step in the command's order (real RSA/x509 certificate generation, CRDs and webhook configurations from /repo/cluster) against a simulated API server that starts without any Crossplane kind. "
+      "Initial clusters: empty, fully initialised, or an initialised cluster damaged by deleting/emptying/stripping TLS secrets, deleting CRDs and webhook configurations; packages pre-installed under derived or custom names, with and without registry host, tag or digest; default Lock/StoreConfig/DeploymentRuntimeConfig with user content. "
+      "0-3 init runs are aborted by an API error (before, or after the write took effect) or a crash at any call; then fault-free runs. "
+      "Every step: a complete CA/TLS secret never changes a byte; pre-existing default objects keep their content. After completion: issued certificates verify against the stored CA (crypto/x509) and cover the service DNS names; every conversion-webhook CRD and webhook configuration carries the server certificate bundle; all core CRDs exist; "
+      "each requested package has exactly one object per registry/repository whose source equals the request; one more run changes no object (idempotence) and must succeed; fault-free runs must complete unless a partially filled server secret blocks them.",
+      TB + " CRD status.storedVersions is not modelled, so the storage-version migrators only take their no-op path. RSA generation dominates: about 300 runs per minute.",
+      "deterministic simulation with fault injection: seeded initial-state/fault/crash search over repeated init runs, per-step invariants and end-state oracles",
+      "§7 C20")
+
 def main():
     props = [json.loads(l)["id"] for l in open(os.path.join(V, "properties.jsonl"))]
     na = []
